@@ -691,5 +691,59 @@ def r15_16(ctx):
     return r
 
 
+RTCP_BUILDERS = ("rtp::marshal_rtcp_packets", "rtp::rtcp_count", "rtp::build_sender_report_body", "rtp::build_receiver_report_body",
+                 "rtp::build_sdes_body", "rtp::build_goodbye_body", "rtp::build_nack_body", "rtp::build_remb_body", "rtp::build_fir_body",
+                 "rtp::build_twcc_body")
+
+
+def r15_17(ctx):
+    """'Parsing any packet the stack serialises returns the same logical packet': RTCP carries list lengths in narrow
+    fields - 5 bits for the report-block / chunk / source count, one octet for an SDES item length, a BYE reason length,
+    the REMB SSRC count. The marshaller narrows `len() as u8` (and write_rtcp_packet masks `& 0x1F`); for a list that
+    does not fit, the count announces fewer entries than the body carries: 32 report blocks serialise without error and
+    parse back as none, a 300-byte CNAME produces a packet our own parser rejects. Decided: in the RTCP marshal functions
+    every `<len-derived> as u8` is, on every path, behind a comparison bounding that value by the field's capacity (31
+    for the count handed to write_rtcp_packet, 255 otherwise), or is a min()/mask with such a constant; and
+    marshal_rtcp_packets hands write_rtcp_packet no count that did not go through such a narrowing."""
+    r = RuleResult("R15.17", "K1", "RTCP count / length fields: every narrowing of a list length is bounded by the field's capacity")
+    n = 0
+    for fn in RTCP_BUILDERS:
+        if not ctx.facts.has_body(fn):
+            continue
+        b = ctx.body(fn)
+        r.scope.append(fn)
+        limit = 31 if fn in ("rtp::marshal_rtcp_packets", "rtp::rtcp_count") else 255
+        seen = set()
+        sites = []
+        for bi, blk in enumerate(b.blocks):
+            if bi in b.cleanup:
+                continue
+            terms = [b.term_rvalue(st["rv"]) for st in blk["s"] if st["k"] == "as"]
+            if blk["t"]["k"] == "call":
+                terms += [b.term_operand(a) for a in blk["t"]["a"]]
+            for t in terms:
+                for x in mir.walk(t):
+                    if x[0] == "cast" and len(x) > 2 and str(x[2]) == "u8":
+                        inner = _strip_casts(x[1])
+                        lenish = mir.has(inner, lambda z: (z[0] == "call" and z[1].endswith("::len")) or z == ("arg", "entries"))
+                        if lenish and (bi, inner) not in seen:
+                            seen.add((bi, inner))
+                            sites.append((bi, inner))
+        for bi, T in sites:
+            n += 1
+            if _self_bounded(T, limit):
+                r.ok({"site": b.where(bi), "value": mir.show(T, 60), "bounded": "min / mask <= %d" % limit})
+                continue
+            g = core.guard_edges(b, _bound_pred(T, limit))
+            if g and core.k1(b, [bi], g, fresh_per_iteration=True)[bi] is None:
+                r.ok({"site": b.where(bi), "value": mir.show(T, 60), "bounded": "comparison with a constant <= %d on every path" % limit})
+            else:
+                r.violate(fn, "narrowing:%s" % mir.show(T, 50), b.where(bi),
+                          "`%s as u8` is not bounded by %d on every path: a longer list is serialised with a count / length that announces "
+                          "fewer entries than the body carries - what is parsed back is another packet (or none)" % (mir.show(T, 60), limit))
+    r.need("list-length narrowings in the RTCP marshaller", n, 4)
+    return r
+
+
 def run(ctx):
-    return [r15_1(ctx), r15_2(ctx), r15_3(ctx), r15_4(ctx), r15_5(ctx), r15_6(ctx), r15_7(ctx), r15_8(ctx), r15_9(ctx), r15_10(ctx), r15_11(ctx), r15_12(ctx), r15_13(ctx), r15_14(ctx), r15_15(ctx), r15_16(ctx)]
+    return [r15_1(ctx), r15_2(ctx), r15_3(ctx), r15_4(ctx), r15_5(ctx), r15_6(ctx), r15_7(ctx), r15_8(ctx), r15_9(ctx), r15_10(ctx), r15_11(ctx), r15_12(ctx), r15_13(ctx), r15_14(ctx), r15_15(ctx), r15_16(ctx), r15_17(ctx)]
